@@ -8,6 +8,8 @@ pub(crate) fn div_rem_in_place(
 /*@
     requires
         rhs@.len() <= old(lhs)@.len() <= usize::MAX, div_prepared(rhs@, fast_div_rhs_top),
+        // `2 * n` is computed in usize by the divide-and-conquer branch: true of every real slice of words
+        2 * rhs@.len() <= usize::MAX,
     ensures
         final(lhs)@.len() == old(lhs)@.len(),
         // a == q*b + r with q = [quotient words in lhs[n..], carry], r = lhs[..n] < b
@@ -18,6 +20,7 @@ pub(crate) fn div_rem_in_place(
         ret == (val(old(lhs)@.subrange(old(lhs)@.len() - rhs@.len(), old(lhs)@.len() as int)) >= val(rhs@)),
 @*/
 {
+    /*@ proof { reveal(div_post); } @*/
     debug_assert!(lhs.len() >= rhs.len() && rhs.len() >= 2);
 
     if rhs.len() <= THRESHOLD_SIMPLE || lhs.len() - rhs.len() <= THRESHOLD_SIMPLE {
